@@ -91,7 +91,7 @@ InvOk(ev, R) ==
 ShapeOk(ev) == /\ "bad" \notin DOMAIN ev
                /\ ev.shape = <<Len(ev.a), Len(ev.b)>>
                /\ Len(ev.out) = Len(ev.a) /\ \A i \in 1..Len(ev.a) : Len(ev.out[i]) = Len(ev.b)
-InDomain(ev) == /\ ev.m \in AllMethods \ BuresMethods
+InDomain(ev) == /\ ev.m \in AllMethods \ PointMethods
                 /\ \A i \in 1..Len(ev.a) : Len(ev.a[i]) = L /\ AdmVec(ev.m, ev.a[i])
                 /\ \A j \in 1..Len(ev.b) : Len(ev.b[j]) = L /\ AdmVec(ev.m, ev.b[j])
 FirstBad(ev, R) == CHOOSE ij \in (1..Len(ev.a)) \X (1..Len(ev.b)) : ~Explains(ev.m, R[ij[1]][ij[2]], ev.out[ij[1]][ij[2]])
